@@ -56,7 +56,39 @@ def chk_const_rhs(c):
         "y' = const is not integrated exactly with step %g: final state %r, exact %r (error %g)" % (tau, np.asarray(sols[-1]).tolist(), want.tolist(), err)
 
 
-CHECKS = {'const_rhs': chk_const_rhs}
+def chk_ros_step(c):
+    """one constant step of a Rosenbrock driver on the linear problem M y' = L y + g (state-dependent right-hand side, J = L) against the
+    stage equations written out from the coefficient tables:  (M - tau*gamma*L) k_i = F(x + tau sum_j a_ij k_j) + tau L sum_j gamma_ij k_j,
+    x_new = x + tau sum_i b_i k_i   (dense numpy, independent of rosenbrock_step)"""
+    import io, contextlib
+    from pyiga import solvers
+    rng = np.random.RandomState(c['seed'])
+    n = c['n']
+    M = _mass(c['mass'], n, rng)
+    L = -(rng.randint(0, 3, size=(n, n)) / 2.0 + np.diag(rng.randint(1, 4, size=n).astype(float)))
+    g = rng.randint(-2, 3, size=n).astype(float)
+    F = lambda y: L @ y + g
+    J = lambda y: L.copy()
+    x0 = rng.randint(-2, 3, size=n).astype(float)
+    tau = c['tau']
+    A, Gamma, b, b_hat, _ = getattr(solvers, 'coeffs_' + c['method'])()
+    gamma = Gamma[0, 0]
+    C = M - tau * gamma * L
+    ks = []
+    for i in range(A.shape[0]):
+        y_i = x0 + tau * sum((A[i, j] * ks[j] for j in range(i)), np.zeros(n))
+        rhs = F(y_i) + tau * L @ sum((Gamma[i, j] * ks[j] for j in range(i)), np.zeros(n))
+        ks.append(np.linalg.solve(C, rhs))
+    want = x0 + tau * sum((b[i] * ks[i] for i in range(len(ks))), np.zeros(n))
+    buf = io.StringIO()
+    with contextlib.redirect_stdout(buf):
+        times, sols = getattr(solvers, c['method'])(M, F, J, x0.copy(), tau, tau, None)
+    assert len(times) == len(sols) == 2, 'one step expected, got times %r' % (list(times),)
+    err = np.max(np.abs(np.asarray(sols[-1]) - want))
+    assert err <= 1e-10 * max(1.0, np.max(np.abs(want))), '%s: one step with tau=%g differs from the stage equations of its tableau by %g' % (c['method'], tau, err)
+
+
+CHECKS = {'const_rhs': chk_const_rhs, 'ros_step': chk_ros_step}
 
 
 def generate(tier, rng):
@@ -73,6 +105,10 @@ def generate(tier, rng):
                     continue
                 yield 'const_rhs', {'method': method, 'tau': tau, 'mass': mass, 'n': 1 if mass == 'identity' else 3, 't0': [0.0, 2.5][k % 2], 'steps': 20, 'seed': k % 7}
 
+    for k, meth in enumerate(('ros3p', 'ros3pw', 'rowdaind2', 'rodasp', 'rosi2p1')):
+        for tau in (0.1, 0.01):
+            for mass in ('identity', 'spd'):
+                yield 'ros_step', {'method': meth, 'tau': tau, 'mass': mass, 'n': 2 + k % 2, 'seed': 40 + k}
 
 if __name__ == '__main__':
     import sys
